@@ -52,7 +52,8 @@ def snapshot(est, syms_inv):
 def run_job(job):
     defn = job["defn"]
     syms, model, sensors, pn, sn, cm = G.build(defn, job.get("decl"))
-    cfg = python.Config(innovation_filtering=job.get("k"))
+    # max_dt_sec belongs to the managed runtime's sub-stepping: the adapter's own fixed step must not depend on it
+    cfg = python.Config(innovation_filtering=job.get("k"), max_dt_sec=job.get("max_dt_sec", 0.1))
     est = python.SklearnEKFAdapter.Create(model, pn, sensors, sn, cm, config=cfg)
     out = {}
     if job.get("X") is not None:
@@ -144,7 +145,9 @@ def run_job(job):
                         "other_keys_same": all(p[k] is getattr(e4, k) for k in ("symbolic_model", "sensor_models", "calibration_map", "config"))})
         out["inverse"] = inv
     if job.get("fit_rows"):
-        e5 = python.SklearnEKFAdapter.Create(model, pn, copy.deepcopy(sensors), copy.deepcopy(sn), cm, config=python.Config(innovation_filtering=job.get("k")))
+        # a configuration in which every field differs from its default: fitting may only retune noise
+        fcfg = python.Config(innovation_filtering=job.get("k"), **job.get("fit_config", {}))
+        e5 = python.SklearnEKFAdapter.Create(model, pn, copy.deepcopy(sensors), copy.deepcopy(sn), cm, config=fcfg)
         b5 = snapshot(e5, None)
         Xf = np.array(job["fit_X"], dtype=float)
         try:
